@@ -138,7 +138,7 @@ func sealDgram(key *shadowsocks.EncryptionKey, salt, plaintext []byte) []byte {
 	return aead.Seal(append([]byte{}, salt...), nonce, plaintext, nil)
 }
 
-func runUDPCase(cs *udpCaseSpec) (obs []udpOpObs, tports []int, fatal string) {
+func runUDPCase(cs *udpCaseSpec) (obs []udpOpObs, tports []int, fatal string, shutdownRemoved int) {
 	cl := service.NewCipherList()
 	cl.Update(makeList(cs.Cfg))
 	rec := &recUDP{}
@@ -148,7 +148,7 @@ func runUDPCase(cs *udpCaseSpec) (obs []udpOpObs, tports []int, fatal string) {
 	}
 	srv, err := net.ListenPacket("udp", "127.0.0.1:0")
 	if err != nil {
-		return nil, nil, "listen: " + err.Error()
+		return nil, nil, "listen: " + err.Error(), 0
 	}
 	handleDone := make(chan string, 1)
 	go func() {
@@ -173,7 +173,7 @@ func runUDPCase(cs *udpCaseSpec) (obs []udpOpObs, tports []int, fatal string) {
 	for i, a := range []string{"127.0.0.1:0", "127.0.0.1:0", "[::1]:0"} {
 		pc, err := net.ListenPacket("udp", a)
 		if err != nil {
-			return nil, nil, "target listen: " + err.Error()
+			return nil, nil, "target listen: " + err.Error(), 0
 		}
 		uc := pc.(*net.UDPConn)
 		targets = append(targets, uc)
@@ -196,7 +196,7 @@ func runUDPCase(cs *udpCaseSpec) (obs []udpOpObs, tports []int, fatal string) {
 	for _, ip := range clientIPs {
 		pc, err := net.ListenPacket("udp", ip+":0")
 		if err != nil {
-			return nil, nil, "client listen: " + err.Error()
+			return nil, nil, "client listen: " + err.Error(), 0
 		}
 		clients = append(clients, pc.(*net.UDPConn))
 		defer pc.Close()
@@ -343,9 +343,28 @@ func runUDPCase(cs *udpCaseSpec) (obs []udpOpObs, tports []int, fatal string) {
 		} else {
 			fatal = "Handle returned while the listener was open"
 		}
+		return obs, tports, fatal, 0
 	default:
 	}
-	return obs, tports, fatal
+	// listener shutdown: every live association must be expired promptly
+	mark := rec.count()
+	srv.Close()
+	select {
+	case msg := <-handleDone:
+		if msg != "" {
+			fatal = msg
+		}
+		handleDone <- ""
+	case <-time.After(2 * time.Second):
+		fatal = "Handle did not return after the listener was closed"
+	}
+	time.Sleep(250 * time.Millisecond)
+	for _, e := range rec.snapshot(mark) {
+		if e.Kind == "remove" {
+			shutdownRemoved++
+		}
+	}
+	return obs, tports, fatal, shutdownRemoved
 }
 
 var udpStatusCodes = map[string]int{"OK": 0, "ERR_CIPHER": 1, "ERR_READ_ADDRESS": 4, "ERR_ADDRESS_INVALID": 5, "ERR_ADDRESS_PRIVATE": 6, "ERR_RESOLVE_ADDRESS": 10, "ERR_PACK": 11}
